@@ -7,6 +7,9 @@ ZB = "clematis/engine/stages/t3/bundle.py"
 ZP = "clematis/engine/stages/t3/policy.py"
 ZO = "clematis/engine/orchestrator/core.py"
 CASES = [
+    ("raw-size-strict-encode", "mutant", S, "    if len(text) > _MAX_RAW_LEN:\n        return False, \"raw output too large\"\n", "    if len(text.encode(\"utf-8\")) > _MAX_RAW_LEN:\n        return False, \"raw output too large\"\n", "C13.TOTAL"),
+    ("raw-size-lenient-encode", "twin", S, "    if len(text) > _MAX_RAW_LEN:\n        return False, \"raw output too large\"\n", "    if len(text) > _MAX_RAW_LEN or len(text.encode(\"utf-8\", \"surrogatepass\")) > 4 * _MAX_RAW_LEN:\n        return False, \"raw output too large\"\n", None),
+    ("raw-size-strict-encode-guarded", "twin", S, "    if len(text) > _MAX_RAW_LEN:\n        return False, \"raw output too large\"\n", "    try:\n        nbytes = len(text.encode(\"utf-8\"))\n    except Exception:\n        return False, \"raw output not encodable\"\n    if len(text) > _MAX_RAW_LEN or nbytes > 4 * _MAX_RAW_LEN:\n        return False, \"raw output too large\"\n", None),
     ("speak-budget-truthiness", "mutant", "clematis/engine/stages/t3/dialogue.py", [("        utter = core\n        style_used = bool(style_prefix)\n\n    max_tokens = 256\n    if speak_op is not None and getattr(speak_op, \"max_tokens\", None) is not None:  # 0 is a budget, not \"unset\"\n", "        utter = core\n        style_used = bool(style_prefix)\n\n    max_tokens = 256\n    if speak_op and getattr(speak_op, \"max_tokens\", None):\n")], None, "C13.TOK"),
     ("sanitize-plan-unnarrowed", "mutant", "clematis/engine/policy/sanitize.py", "    if plan_dict is not None and not isinstance(plan_dict, dict):\n        # wrong top-level type (an array, a string, a number): reject, never raise\n        errors.append(\"plan must be an object\")\n        return {\"reflection\": False}\n", "", "C13.TOTAL"),
     ("sanitize-plan-narrowed-by-try", "twin", "clematis/engine/policy/sanitize.py", "    out = {} if plan_dict is None else dict(plan_dict)\n", "    try:\n        out = {} if plan_dict is None else dict(plan_dict)\n    except Exception:\n        errors.append(\"plan must be an object\")\n        return {\"reflection\": False}\n", None),
